@@ -165,7 +165,7 @@ CHECKS["C18"] = dict(level="model_checking", ref="DESIGN.md 5 C18",
          "nothing never-live, nothing twice, no handle issued twice, own-object results exact, every call returns, final "
          "token content exact. 8- and 16-thread free-running runs with OS locking are validated the same way. The state threads SHARE (login state, last-session logout, user PIN, private objects under construction) is specified in ConcTok.tla as a linearizability checker with silent effect steps; for its programs the calls take interleaving-dependent paths, so besides the TLC schedules every two-preemption schedule counted in points of the execution itself is run.",
     note="Trusted: TLC, vf/drv_conc.py (scheduler in the callbacks). File backend as the property states. Code that shares "
-         "state without a mutex is reached only by the free-running part. Seven known findings (object visible before its "
+         "state without a mutex is reached only by the free-running part. Six known findings (object visible before its "
          "creation completed; torn read of a token object under concurrent searches; C_Logout not atomic with respect to "
          "the creation of private objects; a second transaction on an object refused as busy; dirty reads of an open "
          "transaction; a roll-back overlapping a commit tears the object file) are accepted only in the scoped "
